@@ -87,7 +87,7 @@ def _extra_body(e, kind):
 
 
 def write_pcapng(items, endian="<", tsresol=None, tsoffset=None, shb_opts=None, idb_opts=None, epb_opts=None,
-                 snaplen=0, linktype=1, tsoffset_first=False, pre_idb=()):
+                 snaplen=0, linktype=1, tsoffset_first=False, pre_idb=(), pre_idb_raw=()):
     """items: list of Item.  tsresol: None (default 10^-6) or the raw if_tsresol byte.
     Packet timestamps are exact Fractions; they must be representable in the unit."""
     e = endian
@@ -102,6 +102,8 @@ def write_pcapng(items, endian="<", tsresol=None, tsoffset=None, shb_opts=None, 
     for kind in pre_idb:
         bt, body = _extra_body(e, kind)
         out += _block(e, bt, body)
+    for it in pre_idb_raw:          # decryption secrets blocks in front of the interface description
+        out += _block(e, BT_DSB, struct.pack(e + "II", TLS_KEYLOG_SECRETS, len(it.data)) + _pad(it.data))
     out += _block(e, BT_IDB, struct.pack(e + "HHI", linktype, 0, snaplen) + _opts(e, io))
     if tsresol is None:
         unit = Fraction(1, 10 ** 6)
